@@ -123,6 +123,14 @@ CLAIMS["C14"] = dict(text="bounded symbolic model checking with a semantic oracl
                     "all values; target, shots, cutoff_dim, dark_counts and measured modes survive; a TDM program keeps its per-bin arrays and unrolls to "
                     "the same circuit", design_ref="5/C14",
                     note=NOTE + "; partial claim: numeric literals are representatives (a literal must be concrete to be printed); symbolic parameters do not survive either format (two known findings)")
+CLAIMS["C19"] = dict(text="CrossHair + bounded symbolic model checking: (1) CrossHair, confirmed over all paths: orbits(n) yields exactly the partitions of n "
+                    "(sorted, positive, distinct, count = p(n)) for n<=8; sample_to_orbit / sample_to_event / orbit_to_sample are mutually consistent for "
+                    "samples of length<=4; event_cardinality equals the brute-force count for photons<=5, max count<=5, modes<=4 (thorough: orbit_cardinality "
+                    "vs exact multinomials, c_0/c_1 vs their definitions on all 4-node graphs); (2) Engine P: on ALL 64 four-node graphs (symbolic edge "
+                    "indicators explored by forking) with SYMBOLIC real node weights, every value of the random index, the real grow / swap / shrink "
+                    "return cliques of the input graph (maximal for grow, same size for swap, inside the subgraph for shrink) and the node chosen obeys "
+                    "the documented rule: extremal degree, and -- decided by the solver under the path condition -- extremal weight among the candidates",
+                    design_ref="5/C19", note=NOTE + "; graphs are bounded to 4 nodes; subgraph.search/resize and the hafnian-based probabilities are outside the claim")
 NA_DEFAULT = "check not built yet in this session (plan: DESIGN.md section 5)"
 NA = {}
 
